@@ -917,3 +917,50 @@ Lemma group_rows_keys_spec (l : list (list value * row)) :
 Proof.
   rewrite group_rows_keys. split; [apply dedup_by_NoDup | intros k; apply dedup_by_In]; apply row_vals_eqb_eq.
 Qed.
+
+(* ------------------------------------------------------------------ *)
+(* anchor choice: a segment can be expanded from either end *)
+
+Definition flip_dir (d : dir) : dir := match d with DOut => DIn | DIn => DOut | DBoth => DBoth end.
+Definition flip_rp (rp : rpat value) : rpat value :=
+  RP (rp_var rp) (rp_types rp) (flip_dir (rp_dir rp)) (rp_props rp) (rp_len rp).
+
+Lemma step_flip d r u v : Step d r u v <-> Step (flip_dir d) r v u.
+Proof. destruct d; cbn; tauto. Qed.
+
+Lemma hops_flip g rp u v r : In (r, v) (hops g rp u) <-> In (r, u) (hops g (flip_rp rp) v).
+Proof.
+  rewrite !hops_spec. change (rel_ok (flip_rp rp) r) with (rel_ok rp r).
+  change (rp_dir (flip_rp rp)) with (flip_dir (rp_dir rp)). rewrite (step_flip (rp_dir rp)). tauto.
+Qed.
+
+Lemma walk_snoc g rp u rs v r w :
+  Walk g rp u rs v -> In r (g_rels g) -> rel_ok rp r = true -> Step (rp_dir rp) r v w ->
+  Walk g rp u (rs ++ [r]) w.
+Proof.
+  induction 1 as [u|u r0 v0 rs w0 H1 H2 H3 H4 IH]; intros Hr Ho Hs; cbn.
+  - econstructor; eauto. constructor.
+  - econstructor; eauto.
+Qed.
+
+(* a walk from u to w is, read backwards, a walk from w to u for the reversed direction *)
+Lemma walk_rev g rp u rs w : Walk g rp u rs w -> Walk g (flip_rp rp) w (rev rs) u.
+Proof.
+  induction 1 as [u|u r v rs w H1 H2 H3 H4 IH]; cbn; [constructor|].
+  eapply walk_snoc; eauto. change (rp_dir (flip_rp rp)) with (flip_dir (rp_dir rp)).
+  apply step_flip in H3. exact H3.
+Qed.
+
+Lemma flip_rp_invol rp : flip_rp (flip_rp rp) = rp.
+Proof. destruct rp as [a b [] d e]; reflexivity. Qed.
+
+(* ... and so the trails between two nodes are the same whichever end the expansion starts from *)
+Lemma trail_rev g rp u used rs w :
+  Trail g rp u used rs w <-> Trail g (flip_rp rp) w used (rev rs) u.
+Proof.
+  assert (F : forall rp u rs w, Trail g rp u used rs w -> Trail g (flip_rp rp) w used (rev rs) u).
+  { intros rp0 u0 rs0 w0 [Hw [Hn Hu]]. split; [apply walk_rev, Hw|]. split.
+    - rewrite map_rev. apply NoDup_rev, Hn.
+    - intros r Hr. apply Hu. apply in_rev. exact Hr. }
+  split; [apply F|]. intros H. apply F in H. rewrite flip_rp_invol, rev_involutive in H. exact H.
+Qed.
